@@ -124,6 +124,7 @@ class InitMethod(MethodDescriptor):
                         key: value
                         for key, value in kwargs.items()
                         if key not in instance_metadata.annotations
+                        or not instance_metadata.attrs[key].init
                         or key == instance_metadata.init_overflow_attr
                     },
                     _inplace=True,
